@@ -993,8 +993,8 @@ def pattern_net(rng, idx=0, pattern=None, variant=None):
 
         return netgen_ext.build(rng, idx, pattern, variant)
     if pattern == "shared_consts":
-        # pattern sweep: the variant walks through the axes, part 2 first
-        return shared_consts_net(rng, idx, axis=None if variant is None else (SHARED_AXES_EXT + SHARED_AXES)[variant % len(SHARED_AXES)])
+        # pattern sweep: variants 0..11 walk through the axes of part 2, later ones draw the axis (from all of them)
+        return shared_consts_net(rng, idx, axis=SHARED_AXES_EXT[variant] if variant is not None and variant < len(SHARED_AXES_EXT) else None)
     dtype = rng.choice(["int8", "int8", "uint8"])
     b = B(rng, f"pat{idx}_{pattern}", dtype)
     b.net.desc.append(f"pattern={pattern} dtype={dtype}")
